@@ -10,11 +10,11 @@ here="$(cd "$(dirname "$0")/.." && pwd)"
 # (tools/selftest.sh, tools/run_seeds.sh) or, for a stand-alone run, right here.
 slot="${KVM_SLOT:-solo$$}"
 scratch="${VERIF_SCRATCH:-/var/tmp}/kvm.slot.$slot"
-# A build cache per slot, emptied by the slot itself when it passes 4 GB: a shared cache grew to 80 GB in one corpus
+# A build cache per slot, emptied by the slot itself when it passes 7 GB (a full build of the touched packages with their dependencies is about 5 GB; at 4 GB every patch rebuilt from cold): a shared cache grew to 80 GB in one corpus
 # run, and cleaning a cache that another job is reading makes that job fail (DESIGN.md §10.17).
 if [ -n "$KVM_SLOT" ]; then
   export GOCACHE="$scratch/gocache"
-  if [ -d "$GOCACHE" ] && [ "$(du -sm "$GOCACHE" | cut -f1)" -gt "${SLOT_CACHE_MB:-4000}" ]; then rm -rf "$GOCACHE"; fi
+  if [ -d "$GOCACHE" ] && [ "$(du -sm "$GOCACHE" | cut -f1)" -gt "${SLOT_CACHE_MB:-7000}" ]; then rm -rf "$GOCACHE"; fi
 fi
 rm -rf "$scratch/verif"; mkdir -p "$scratch/repo" "$scratch/verif/evidence"
 rsync -a --delete --exclude .git /repo/ "$scratch/repo/"
